@@ -41,7 +41,15 @@ Seeds == <<
                             Prop("c", O(<<Prop("x", TString, TRUE)>>), FALSE)>>)],
   [env |-> <<>>, ty |-> Uni(<<Tpl(<<TpLit("x"), TpNum>>), LS("y")>>)],
   [env |-> <<>>, ty |-> MapT(TString, Uni(<<TNumber, Prim("Date")>>))],
-  [env |-> <<>>, ty |-> Uni(<<O(<<Prop("k", LS("x"), FALSE)>>), TNull, Arr(TNumber)>>)]
+  [env |-> <<>>, ty |-> Uni(<<O(<<Prop("k", LS("x"), FALSE)>>), TNull, Arr(TNumber)>>)],
+  \* a union variant that is an intersection of named types which both declare the discriminator (one wider, one narrower)
+  [env |-> <<[n |-> "Base", kind |-> "type", ty |-> O(<<Prop("kind", Uni(<<LS("circle"), LS("ellipse")>>), FALSE), Prop("id", TString, FALSE)>>)],
+             [n |-> "Cp",   kind |-> "type", ty |-> O(<<Prop("kind", LS("circle"), FALSE), Prop("r", TNumber, FALSE)>>)],
+             [n |-> "Sq",   kind |-> "type", ty |-> O(<<Prop("kind", LS("sq"), FALSE), Prop("s", TNumber, FALSE)>>)]>>,
+   ty |-> Uni(<<Inter(<<Ref("Base"), Ref("Cp")>>), Ref("Sq")>>)],
+  \* intersection members that declare the same key with the same type but different optionality
+  [env |-> <<>>, ty |-> Inter(<<O(<<Prop("id", TString, FALSE), Prop("note", TString, FALSE)>>),
+                                O(<<Prop("note", TString, TRUE), Prop("tag", TNumber, FALSE)>>)>>)]
 >>
 
 VARIABLES seed, env, ty, steps, rule, rules
@@ -79,7 +87,7 @@ Local(T, e) ==
                Res(Deco("comment", T), <<>>, "AddComment"),
                Res(App("Id", <<T>>), IF IsDeclared(e, "Id") THEN <<>> ELSE <<IdDecl>>, "WrapGenericIdentity") }
         ELSE {})
-  \cup (IF T.t = "ref" /\ T.n \notin {"R", "P", "Q"}     \* the recursive seeds' names are not inlined
+  \cup (IF T.t = "ref" /\ T.n \notin {"R", "P", "Q", "Rx", "Px", "Qx", "ZzR", "ZzP", "ZzQ"}     \* the recursive seeds' names are not inlined
         THEN { Res(Lookup(e, T.n), <<>>, "InlineAlias") } ELSE {})
 
 \* all single-position rewrites of T
@@ -115,6 +123,18 @@ Ren(T, a, b) ==
     [] T.t = "deco"  -> [T EXCEPT !.a = Ren(T.a, a, b)]
     [] OTHER -> T
 
+\* does the name a occur as a direct member of a union or intersection in T?
+RECURSIVE DirectMember(_, _)
+DirectMember(T, a) ==
+  CASE T.t \in {"union", "inter"} -> (\E i \in DOMAIN T.ms : T.ms[i] = Ref(a)) \/ (\E i \in DOMAIN T.ms : DirectMember(T.ms[i], a))
+    [] T.t \in {"arr", "set"} -> DirectMember(T.e, a)
+    [] T.t = "map"   -> DirectMember(T.kt, a) \/ DirectMember(T.vt, a)
+    [] T.t = "tuple" -> \E i \in DOMAIN (T.es \o T.r) : DirectMember((T.es \o T.r)[i], a)
+    [] T.t = "obj"   -> (\E i \in DOMAIN T.ps : DirectMember(T.ps[i].ty, a)) \/ (\E i \in DOMAIN T.ix : DirectMember(T.ix[i].vt, a))
+    [] T.t = "deco"  -> DirectMember(T.a, a)
+    [] T.t = "app"   -> \E i \in DOMAIN T.args : DirectMember(T.args[i], a)
+    [] OTHER -> FALSE
+
 Init == /\ seed \in SeedSet
         /\ env = Seeds[seed].env /\ ty = Seeds[seed].ty
         /\ steps = 0 /\ rule = "seed" /\ rules = {}
@@ -128,11 +148,14 @@ InDecl == \E i \in DOMAIN env : \E x \in RW(env[i].ty, env) :
 
 RenameAlias == \E i \in DOMAIN env :
                  /\ env[i].n # "Id"
-                 /\ LET a == env[i].n  b == env[i].n \o "x" IN
+                 \* a new name that sorts right after the old one, or after every other name
+                 /\ \E b \in {env[i].n \o "x", "Zz" \o env[i].n} : LET a == env[i].n IN
                     /\ ~IsDeclared(env, b)
                     /\ env' = [j \in DOMAIN env |-> [env[j] EXCEPT !.n = IF @ = a THEN b ELSE @, !.ty = Ren(env[j].ty, a, b)]]
                     /\ ty' = Ren(ty, a, b)
-                 /\ rule' = "RenameAlias"
+                 \* reference members of a union / intersection are emitted in the order of their names: tagged @member
+                 /\ rule' = IF DirectMember(ty, env[i].n) \/ (\E j \in DOMAIN env : DirectMember(env[j].ty, env[i].n))
+                            THEN "RenameAlias@member" ELSE "RenameAlias"
 
 PermuteDecls == Len(env) >= 2 /\ env' = Reverse(env) /\ ty' = ty /\ rule' = "PermuteDecls"
 
